@@ -747,6 +747,11 @@ func finish(chk *Check, tier string, seed int64, reps []*workerReport, errs []st
 		chk.ID, tier, execs, states, trans, exhaustive, nviol, len(knownLines), wall)
 	for _, a := range aggs {
 		fmt.Printf("   %-34s execs=%-9d steps=%-11d outcomes=%d complete=%v bound=%s\n", a.Scenario, a.Execs, a.Steps, len(a.Outcomes), a.Complete, string(a.BoundDone))
+		if os.Getenv("VCHECK_OUTCOMES") != "" {
+			for k, v := range a.Outcomes {
+				fmt.Printf("      outcome %q x%d\n", k, v)
+			}
+		}
 	}
 	return rc
 }
